@@ -121,7 +121,7 @@ def handleC17 (toks : List String) : String :=
   so new CELL n POS NLIST theta cos          Strain(system, neighbors) without p vectors      -> ok
   so setp AX kind m ...                      set_p_vectors: AX = `0` | `1 T9`; kind `flat m V*m` | `nested m (c V*c)*m` -> ok | err:value
   so buildp CELL n POS NLIST                 build_p_vectors(basesystem, neighbors)             -> ok
-  so theta v c | so clear | so setpos POS    theta_max setter / clear_properties / in-place edit of the positions -> ok
+  so theta v c | so clear | so setpos POS | so setsys CELL POS   theta_max setter / clear_properties / in-place edit of the system -> ok
   so solve 0 | so solve 1 v c                solve_G(theta_max)                                  -> ok | err:value
   so read PROP SEL                           property of the selected atoms                      -> numbers | err:value
   do new SYS0 SYS1 ARGS | do solve ARGS      DifferentialDisplacement(...) / .solve(...)        -> ok | err:assert | err:value
@@ -217,6 +217,9 @@ def stepC17 (st : St) (toks : List String) : St × String :=
       | "setpos" => runS st (do
           let p ← pPos o.inp.n; pEnd
           pure ({ st with so := some (o.setPos (fn p)) }, "ok")) rest
+      | "setsys" => runS st (do
+          let c ← pCell; let p ← pPos o.inp.n; pEnd
+          pure ({ st with so := some (o.setSys c (fn p)) }, "ok")) rest
       | "solve" => runS st (do
           let th ← pOpt (do let v ← pRat; let c ← pRat; pure (v, c)); pEnd
           let r := o.solve magR big th
